@@ -144,3 +144,183 @@ func ruleCutAtUkeyBoundary(p *Prog, r *Report, rule string) {
 	n := countInstr(fn, func(in ssa.Instruction) bool { c, ok := in.(*ssa.Call); return ok && ucmp(c) })
 	r.Check(n >= 1, fnName(fn), "compares-current-ukey", "the boundary test compares lastUkey with the current entry's user key through the comparer", "no uCompare(.., ukey) found", p.Pos(fn.Pos()))
 }
+
+// ruleBaseLevel: compaction.baseLevelForKey answers "no deeper level can hold this user key":
+// it may answer true only after every deeper level was examined, and false only when a table's
+// range covers the key.
+func ruleBaseLevel(p *Prog, r *Report, rule string) {
+	r.Begin(rule, "E-GUARD", "baseLevelForKey (which licenses dropping a tombstone): returns false exactly when a deeper table's [imin, imax] user-key range covers the key; returns true only after ALL deeper levels (sourceLevel+2 …) were examined; the trivial move is taken only for a single input table with no parent-level overlap", 3)
+	defer r.End()
+	fn := resolveFn(p, r, "leveldb", "(*compaction).baseLevelForKey")
+	if fn != nil {
+		moreLevels := cmpAtom("level<len(levels)", token.LSS, func(v ssa.Value) bool {
+			ph, ok := v.(*ssa.Phi)
+			return ok && ph.Comment == "level"
+		}, func(v ssa.Value) bool {
+			c, ok := v.(*ssa.Call)
+			return ok && isCallTo(c, "builtin:len") && isFieldLoad(c.Call.Args[0], "leveldb.version", "levels")
+		})
+		leImax := cmpAtom("uCompare(ukey,t.imax.ukey())<=0", token.LEQ, func(v ssa.Value) bool {
+			c, ok := callValue(v, fUCompare)
+			return ok && isUkeyOf(ukeyArg(c, 2), "imax")
+		}, mConstInt(0))
+		geImin := cmpAtom("uCompare(ukey,t.imin.ukey())>=0", token.GEQ, func(v ssa.Value) bool {
+			c, ok := callValue(v, fUCompare)
+			return ok && isUkeyOf(ukeyArg(c, 2), "imin")
+		}, mConstInt(0))
+		maybeTrue := func(in ssa.Instruction) bool {
+			ret, ok := in.(*ssa.Return)
+			if !ok || len(ret.Results) != 1 {
+				return false
+			}
+			b, isC := constBool(ret.Results[0])
+			return !isC || b
+		}
+		maybeFalse := func(in ssa.Instruction) bool {
+			ret, ok := in.(*ssa.Return)
+			if !ok || len(ret.Results) != 1 {
+				return false
+			}
+			b, isC := constBool(ret.Results[0])
+			return !isC || !b
+		}
+		checkGuard(p, r, GuardSpec{Rule: "true-only-after-all-levels", Fn: fn, Target: maybeTrue, TargetDesc: "answering 'base level' (true)", Atoms: []Atom{moreLevels}, G: func(a []bool) bool { return !a[0] }, GDesc: "all deeper levels examined (level >= len(levels))", MinTargets: 1})
+		checkGuard(p, r, GuardSpec{Rule: "false-only-if-covered", Fn: fn, Target: maybeFalse, TargetDesc: "answering 'not base level' (false)", Atoms: []Atom{leImax, geImin}, G: func(a []bool) bool { return a[0] && a[1] }, GDesc: "imin <= ukey <= imax for some deeper table", MinTargets: 1})
+		// and a covering table does yield false (not skipped)
+		if w := findPathV(entryPoint(fn), atomEdges([]Atom{leImax, geImin}, []bool{true, true}), func(in ssa.Instruction) bool {
+			ret, ok := in.(*ssa.Return)
+			if !ok {
+				return false
+			}
+			b, isC := constBool(ret.Results[0])
+			return isC && !b
+		}, maybeTrue, atomVals([]Atom{leImax, geImin}, []bool{true, true})); w != nil {
+			// only meaningful if the comparisons are evaluated at all on that path: require the path to pass a uCompare
+			passes := false
+			for _, b := range w {
+				for _, in := range b.Instrs {
+					if isCallTo(in, fUCompare) {
+						passes = true
+					}
+				}
+			}
+			if passes {
+				r.Fail(fnName(fn), "covered-key-reported-base", "a key covered by a deeper table is never reported as base level", "with imin <= ukey <= imax a path answers true", p.posOfLast(w, maybeTrue), p.renderPath(w))
+			} else {
+				r.OK(fnName(fn), "covered-key-not-base", "a key covered by a deeper table is never reported as base level")
+			}
+		} else {
+			r.OK(fnName(fn), "covered-key-not-base", "a key covered by a deeper table is never reported as base level")
+		}
+		// starts two levels below the source
+		okStart := false
+		instrs(fn, func(_ *ssa.BasicBlock, _ int, in ssa.Instruction) {
+			if ph, ok := in.(*ssa.Phi); ok && ph.Comment == "level" {
+				for _, e := range ph.Edges {
+					if mSourceLevelPlus(2, true)(e) {
+						okStart = true
+					}
+				}
+			}
+		})
+		r.Site(1)
+		r.Check(okStart, fnName(fn), "starts-at-grandparent", "the scan starts at sourceLevel+2 (the first level not rewritten by this compaction)", "level does not start at sourceLevel+2", p.Pos(fn.Pos()))
+	}
+	if fn := resolveFn(p, r, "leveldb", "(*compaction).trivial"); fn != nil {
+		lenOf := func(i int64) VMatch {
+			return func(v ssa.Value) bool {
+				c, ok := v.(*ssa.Call)
+				if !ok || !isCallTo(c, "builtin:len") {
+					return false
+				}
+				u, ok := c.Call.Args[0].(*ssa.UnOp)
+				if !ok {
+					return false
+				}
+				ia, ok := u.X.(*ssa.IndexAddr)
+				if !ok || !isFieldAddr(ia.X, tComp, "levels") {
+					return false
+				}
+				k, ok := constInt(ia.Index)
+				return ok && k == i
+			}
+		}
+		one := cmpAtom("len(levels[0])==1", token.EQL, lenOf(0), mConstInt(1))
+		none := cmpAtom("len(levels[1])==0", token.EQL, lenOf(1), mConstInt(0))
+		maybeTrue := func(in ssa.Instruction) bool {
+			ret, ok := in.(*ssa.Return)
+			if !ok || len(ret.Results) != 1 {
+				return false
+			}
+			b, isC := constBool(ret.Results[0])
+			return !isC || b
+		}
+		// the function is one && chain returning a phi: evaluate through the phi with the atoms
+		ok := true
+		for mask := 0; mask < 4; mask++ {
+			as := []bool{mask&1 != 0, mask&2 != 0}
+			if as[0] && as[1] {
+				continue
+			}
+			// with a conjunct false the result must not be (possibly) true
+			if w := findPathV(entryPoint(fn), atomEdges([]Atom{one, none}, as), nil, func(in ssa.Instruction) bool {
+				ret, isRet := in.(*ssa.Return)
+				if !isRet {
+					return false
+				}
+				return maybeTrue(in) && !phiKnownFalse(ret.Results[0])
+			}, atomVals([]Atom{one, none}, as)); w != nil {
+				// findPathV prunes Ifs on known phis but a returned phi needs its value: check edge constants
+				if !returnsFalseOnPath(w, fn) {
+					ok = false
+				}
+			}
+		}
+		r.Site(1)
+		r.Check(ok, fnName(fn), "trivial-needs-single-input-no-overlap", "a trivial move needs exactly one input table and no overlapping parent-level table", "trivial() can answer true with more inputs or a parent overlap: a table would be moved onto overlapping tables", p.Pos(fn.Pos()))
+	}
+}
+
+func ukeyArg(c *ssa.Call, i int) ssa.Value {
+	if i < len(c.Call.Args) {
+		return c.Call.Args[i]
+	}
+	return nil
+}
+
+func phiKnownFalse(v ssa.Value) bool { b, ok := constBool(v); return ok && !b }
+
+// returnsFalseOnPath: the return at the end of path w returns a boolean phi whose incoming edge
+// along w is the constant false.
+func returnsFalseOnPath(w []*ssa.BasicBlock, fn *ssa.Function) bool {
+	if len(w) < 2 {
+		return false
+	}
+	last, prev := w[len(w)-1], w[len(w)-2]
+	for _, in := range last.Instrs {
+		ret, ok := in.(*ssa.Return)
+		if !ok {
+			continue
+		}
+		ph, ok := ret.Results[0].(*ssa.Phi)
+		if !ok || ph.Block() != last {
+			return false
+		}
+		for i, pb := range last.Preds {
+			if pb == prev {
+				b, isC := constBool(ph.Edges[i])
+				return isC && !b
+			}
+		}
+	}
+	return false
+}
+
+// isUkeyOf: v is t.<field>.ukey() for a tFile field.
+func isUkeyOf(v ssa.Value, field string) bool {
+	if v == nil {
+		return false
+	}
+	c, ok := callValue(v, "(leveldb.internalKey).ukey")
+	return ok && isFieldLoad(stripConv(c.Call.Args[0]), "leveldb.tFile", field)
+}
